@@ -147,7 +147,7 @@ func genC04(c *Ctx) {
 		}
 	}
 	// 2. black box through real templates
-	forms := []string{"dq", "sq", "unq", "attrname", "tagname", "content"}
+	forms := []string{"dq", "sq", "unq", "attrname", "tagname", "content", "content", "selfclose", "selfclose-attr", "cond-glued", "cond-glued"}
 	vals := []*Val{{Kind: "s", S: "x"}, {Kind: "s", S: "javascript:alert(1)"}, {Kind: "s", S: "ltr"}, {Kind: "s", S: "async"}, {Kind: "s", S: "_blank"}, {Kind: "s", S: "lazy"},
 		{Kind: "t", Tag: "H", S: "<b>x</b>"}, {Kind: "t", Tag: "S", S: "alert(1)"}, {Kind: "t", Tag: "Y", S: "color:red;"}, {Kind: "t", Tag: "E", S: "p{}"},
 		{Kind: "t", Tag: "U", S: "http://x/"}, {Kind: "t", Tag: "R", S: "https://x/a.js"}, {Kind: "t", Tag: "I", S: "id1"}}
@@ -181,6 +181,14 @@ func genC04(c *Ctx) {
 			text = "<{{.}}>"
 		case "content":
 			text = "<" + e + ">{{.}}</" + e + ">"
+		case "selfclose":
+			// the solidus does not close a non-void HTML element: this is still the content of <e>
+			text = "<" + e + pick(c, []string{"/", " /", "\t/", " / "}) + ">{{.}}</" + e + ">"
+		case "selfclose-attr":
+			text = "<" + e + " class=\"w\"" + pick(c, []string{"/", " /"}) + ">{{.}}</" + e + ">"
+		case "cond-glued":
+			// a conditional valueless attribute whose branch ends in white space, the next attribute name glued to {{end}}
+			text = "<" + e + " {{if .}}" + pick(c, []string{"hidden", "disabled", "data-x", "checked"}) + " {{end}}" + a + "=\"{{.}}\">"
 		}
 		if strings.ToLower(e) == "link" && c.rng.Intn(2) == 0 && (form == "dq" || form == "sq") {
 			rel = pick(c, probeRels)
